@@ -286,7 +286,9 @@ def run(chk, tier):
             if H.kind(mm) != "match":
                 continue
             for p, g, b, ln in H.match_arms(mm):
-                idx = [H.int_lit(y[3]) for y in H.walk(b) if H.kind(y) == "index" and H.int_lit(y[3]) is not None]
+                binds = set(H.pat_bindings(p))
+                idx = [H.int_lit(y[3]) if H.int_lit(y[3]) is not None else H.show(y[3], 4) for y in H.walk(b)
+                       if H.kind(y) == "index" and (H.int_lit(y[3]) is not None or H.path_of(H.peel(y[2])) in binds) and "Range" not in H.show(y[3], 2)]
                 if not idx:
                     continue
                 n_idx += 1
